@@ -269,9 +269,9 @@ def phase_life(ctx):
     # state-by-state comparison while the defect is present in the code)
     keeps = os.path.join(d, "blob_keeps_sha.cfg")
     tlc.write_cfg(keeps, spec="Spec", constants={"NF": 1, "Vals": "{0, 1, 2}", "IsBlob": "TRUE", "SetterMarksDirty": "TRUE",
-                                                "ChunkedResetsSha": "FALSE"})
-    for name, cfg, budget in (("generic", "ObjFile_mc.cfg", ctx.pick(600, 100000)), ("blob", "ObjFile_blob.cfg", ctx.pick(300, 100000)),
-                              ("blob_keeps_sha", keeps, ctx.pick(300, 100000))):
+                                                "ChunkedResetsSha": "FALSE", "ExplicitSha1Recomputes": "TRUE"})
+    for name, cfg, budget in (("generic", "ObjFile_mc.cfg", ctx.pick(450, 100000)), ("blob", "ObjFile_blob.cfg", ctx.pick(200, 100000)),
+                              ("blob_keeps_sha", keeps, ctx.pick(200, 100000))):
         dot = os.path.join(d, name + ".dot")
         res = tlc.run("ObjFile.tla", cfg, workers=4, dump_dot=dot, timeout=600, coverage=not ctx.quick)
         ctx.add_tlc(f"ObjFile[{os.path.basename(cfg)}]" + (" invariants TypeOK IdIsHash SerCurrent CacheCoherent" if cfg != keeps else " (shape of the defect model, no invariants)"), res)
@@ -283,7 +283,7 @@ def phase_life(ctx):
                                                 "transitions_covered": covered}
         ctx.log(f"ObjFile {name}: {len(g.nodes)} states, {total} transitions, {len(paths)} behaviours cover {covered}")
     # negative controls: the invariants bite on the two defect models
-    for cfg in ("ObjFile_stale.cfg", "ObjFile_chunked.cfg"):
+    for cfg in ("ObjFile_stale.cfg", "ObjFile_chunked.cfg", "ObjFile_sha1cache.cfg"):
         r = tlc.run("ObjFile.tla", cfg, workers=2, timeout=300)
         ctx.add_tlc(f"{cfg} (negative control: defect model must violate IdIsHash/SerCurrent)", r, require_ok=False)
         if not ({"IdIsHash", "SerCurrent"} & set(r.violated)):
@@ -302,11 +302,17 @@ def phase_life(ctx):
         modes = ["py", "rs"] if c["kind"] == "tree" else ["py"]
         for m in modes:
             jobs.append({"task": "life", "mode": m, "dump": ctx.dump, "pools": ctx.poolf, "paths": pf, "concs": [c],
-                         "histories": ctx.pick(40, 1500), "history_len": ctx.pick(16, 24)})
+                         "histories": ctx.pick(30, 1500), "history_len": ctx.pick(16, 24)})
+    jobs.append({"task": "life", "mode": "py", "dump": ctx.dump, "pools": ctx.poolf, "store": True, "tmp": ctx.tmpdir("st")})
     results = spawn(ctx, jobs, "life")
     tot = {}
     traces = []
     for r in results:
+        for f in r.get("store_fail", []):
+            # smallest description per clause: the clause itself names formats and what went wrong
+            sig = f"dulwich/object_store.py:DiskObjectStore+dulwich/objects.py:ShaFile.sha|store {f['clause']}|{f['kind']}"
+            ctx.violation(sig, f"store level: a {f['kind']} read from a {f['pair'][0]} DiskObjectStore (carrying the name it was found by) and added "
+                               f"to a {f['pair'][1]} store: {f['clause']} {f['note']}", {"phase": "store", "failure": f})
         for k, v in r["n"].items():
             tot[k] = tot.get(k, 0) + v
         for s in r["samples"]:
@@ -330,7 +336,8 @@ def phase_life(ctx):
 
 
 # ----------------------------------------------------------------------------- phase 3: TLC judges recorded executions
-OPNAME = {"Set": "set", "AsRaw": "raw", "ReadId": "id", "ReadId256": "id256", "Copy": "copy", "Check": "check"}
+OPNAME = {"Set": "set", "AsRaw": "raw", "ReadId": "id", "ReadIdF": "idF", "Copy": "copy", "Check": "check",
+          "SetRaw": "setraw", "SetChunked": "chunked", "Reload": "reload"}
 
 
 def _val(v):
@@ -345,18 +352,19 @@ def life_trace(tid, t):
     ev = []
     for e in t["ev"]:
         op, a = e["op"], e["args"]
-        rec = {"op": OPNAME.get(op, ""), "f": 0, "x": 0, "v": [], "ret": _val(e["ret"]), "fields": _val(e["st"]["fields"]),
-               "dirty": e["st"]["dirty"], "text": _val(e["st"]["text"]), "shak": e["st"]["sha"][0], "shav": _val(e["st"]["sha"][1])}
+        rec = {"op": OPNAME[op], "f": 0, "x": 0, "v": [], "ret": _val(e["ret"]), "rfmt": e.get("rfmt", 0),
+               "fields": _val(e["st"]["fields"]), "dirty": e["st"]["dirty"], "text": _val(e["st"]["text"]),
+               "shak": e["st"]["sha"][0], "shav": _val(e["st"]["sha"][1]), "shaf": e["st"]["sha"][2]}
         if op == "Set":
             rec["f"], rec["x"] = a
         elif op == "SetRaw":
-            rec["op"], rec["v"] = ("setrawsha" if a[1] else "setraw"), list(a[0])
+            rec["v"], rec["f"] = list(a[0]), int(a[1])
         elif op == "SetChunked":
-            rec["op"], rec["v"] = "chunked", list(a[0])
-        elif op == "Reload":
-            rec["op"] = "reloadsha" if a[0] else "reload"
+            rec["v"] = list(a[0])
+        elif op in ("Reload", "ReadIdF"):
+            rec["f"] = int(a[0])
         ev.append(rec)
-    return {"tid": tid, "origin": t["origin"], "v0": list(t["v0"]), "ev": ev}
+    return {"tid": tid, "origin": t["origin"], "ofmt": t.get("ofmt", 0), "v0": list(t["v0"]), "ev": ev}
 
 
 def tlc_verdicts(ctx, spec, cfg, path, label, n):
@@ -418,8 +426,8 @@ def phase_life_traces(ctx, traces):
 
 def phase_fuzz(ctx):
     d = ctx.tmpdir("fz")
-    n_py, n_rs = ctx.pick(4, 12), ctx.pick(1, 3)
-    per = ctx.pick(600, 6000)
+    n_py, n_rs = ctx.pick(3, 12), ctx.pick(1, 3)
+    per = ctx.pick(500, 6000)
     jobs = [{"task": "fuzz", "mode": "py", "shard": i, "count": per, "traces": os.path.join(d, f"py{i}.ndjson")} for i in range(n_py)]
     jobs += [{"task": "fuzz", "mode": "rs", "shard": 100 + i, "count": per, "traces": os.path.join(d, f"rs{i}.ndjson")} for i in range(n_rs)]
     results = spawn(ctx, jobs, "fuzz")
@@ -656,7 +664,7 @@ def phase_git(ctx):
                 raise MachineryError(f"git ls-tree and the specification disagree on tree {k}: {got} vs {ents}")
         # mktag: accepted exactly when strict, with a tagger
         tags = [k for k in keys if k[0] == "tag"]
-        tags = tags[:: max(1, len(tags) // ctx.pick(40, 400))]
+        tags = tags[:: max(1, len(tags) // ctx.pick(25, 400))]
         nacc = 0
         for k in tags:
             body = L.render(table[k], algo)
@@ -671,7 +679,7 @@ def phase_git(ctx):
                     raise MachineryError(f"git mktag names tag {k} differently")
         cov[algo] = {"objects_named_by_git": len(keys), "fsck_strict_rejected_as_predicted": len(rejected),
                      "trees_rebuilt_by_mktree": len(trees), "mktag_tried": len(tags), "mktag_accepted": nacc}
-        recs, skipped = git_made(ctx, repo, ctx.pick(60, 1500), ctx.pick(25, 500), ctx.pick(150, 5000), stub)
+        recs, skipped = git_made(ctx, repo, ctx.pick(40, 1500), ctx.pick(16, 500), ctx.pick(100, 5000), stub)
         cov[algo]["git_made_objects"] = len(recs)
         cov[algo]["git_refused_inputs"] = skipped
         allrecs += recs
@@ -774,7 +782,7 @@ def replay(ctx, path):
             t = obj["trace"]
             kind, triple = t["conc"].split("/")[0], t["conc"].split("/")[1]
             f = {"conc": {"kind": kind, "algo": t["algo"], "triple": triple.split("+") if triple != "-" else None},
-                 "origin": t["origin"], "v0": t["v0"], "ops": t["ops"], "flavour": t["flavour"], "mode": "py", "clause": "", "scenario": t["scenario"]}
+                 "origin": t["origin"], "ofmt": t.get("ofmt", 0), "v0": t["v0"], "ops": t["ops"], "flavour": t["flavour"], "mode": "py", "clause": "", "scenario": t["scenario"]}
         job = {"task": "life", "mode": f.get("mode", "py"), "dump": ctx.dump, "pools": ctx.poolf, "replay": f}
         r = spawn(ctx, [job], "replay")[0]
         for i, st in enumerate(r["steps"]):
@@ -782,8 +790,16 @@ def replay(ctx, path):
         for x in r["fail"]:
             print("REPRODUCED", json.dumps(x))
         return 1 if r["fail"] else 0
+    if phase == "store":
+        phase_grammar(ctx, only=[], edits=False)
+        r = spawn(ctx, [{"task": "life", "mode": "py", "dump": ctx.dump, "pools": ctx.poolf, "store": True, "tmp": ctx.tmpdir("st"),
+                         "store_only": f["pair"]}], "replay")[0]
+        hits = [x for x in r["store_fail"] if x["clause"] == f["clause"] and x["kind"] == f["kind"]]
+        for x in hits:
+            print("REPRODUCED", json.dumps(x))
+        return 1 if hits else 0
     if phase == "fuzz":
-        job = obj.get("job") or {"mode": f.get("mode", "py"), "shard": f.get("shard", 0), "count": ctx.pick(600, 6000)}
+        job = obj.get("job") or {"mode": f.get("mode", "py"), "shard": f.get("shard", 0), "count": ctx.pick(500, 6000)}
         d = ctx.tmpdir("fz")
         job = dict(job, task="fuzz", traces=os.path.join(d, "t.ndjson"))
         r = spawn(ctx, [job], "replay")[0]
